@@ -8,7 +8,8 @@ package main
 //   enc <v> rest=<bytes> <frame…>   EncodeFrame(frame, v); encodedFrameSize; DecodeFrame(bytes++rest, v)
 //        -> "ok len=<n> size=<s> bytes=<shown> ; dec <frame…> n=<consumed> rl=<RemainingLength> fs=<FrameSize>"
 //           (decode part may be "need" | "err"), or "encerr size=<s>", or "encpanic" (WriteString length panic)
-//   dec <v> <bytes>                 DecodeFrame(bytes, v) -> "dec … n= rl= fs=" | "need" | "err"
+//   dec <v> <bytes>                 DecodeFrame(bytes, v) -> "dec … n= rl= fs= ; re=<ok len=<m> | encerr | encpanic> ; <decode of the re-encoding>"
+//                                   | "need" | "err"   (the decoded frame is re-encoded with the real encoder and decoded again)
 //   var <n> rest=<bytes>            encodeVariable2 / encodedVariableSize / decodeLength(bytes++rest)
 //   dlen <bytes>                    decodeLength(bytes) -> "<rl>,<consumed>" | "errlen"
 //   hdr <ft> <fl>                   ToFixHeaderUint8(Framer{ft, flags}) then FramerFromUint8
@@ -188,7 +189,17 @@ func (r *c22Runner) Step(op string) string {
 		if err != nil || !ok || len(data) == 0 {
 			return "bad-op" // DecodeFrame on empty input is the caller's guard (C23)
 		}
-		return showDecode(r.p, data, uint8(vv))
+		out := showDecode(r.p, data, uint8(vv))
+		if !strings.HasPrefix(out, "dec ") {
+			return out
+		}
+		// re-encode what the decoder produced and decode that again
+		fr, _, _ := r.p.DecodeFrame(exact(data), uint8(vv))
+		bs, st := encodeCatch(r.p, fr, uint8(vv))
+		if st != "ok" {
+			return out + " ; re=" + st
+		}
+		return fmt.Sprintf("%s ; re=ok len=%d ; %s", out, len(bs), showDecode(r.p, bs, uint8(vv)))
 	case "var":
 		if len(f) != 3 || !strings.HasPrefix(f[2], "rest=") {
 			return "bad-op"
